@@ -20,7 +20,8 @@ RULE = ("Hypothesis draws an HPD system: A = Q diag(lam) Q^H (real/complex; spec
         "preconditioner; (g) with a real tolerance and columns of different difficulty, every column is the k-step optimum for "
         "the k steps actually run; also through inv(A, CG(...)) @ b. Non-trivial: truncated run (k < n), preconditioned, non-zero x0, "
         "multi-column with spread norms, or complex. Right-hand sides are dense, unit vectors, or sparse with rows that are "
-        "exactly zero in every column; after every call the caller's b and x0 must be bit-identical.")
+        "exactly zero in every column; after every call the caller's b and x0 must be bit-identical."
+        " Round 5: float32 / complex64 columns with norms 1e4 and 1e-4 and drawn guesses in the columns sub-check.")
 ASSUMPTIONS = [
     "optimality is only judged where floating-point CG tracks exact arithmetic (calibrated regime above), at 1e-6 relative A-norm error",
     "stopping threshold judged with a 1% borderline band plus c*kappa*eps; borderline cases are counted inconclusive",
